@@ -29,9 +29,9 @@ DEMO_WITH=na; DEMO_WITHOUT=na
 if [ -n "$DEMOFILE" ] && [ -n "$DEMO_PATH" ]; then
   cp $DEMOFILE $WT/$DEMO_PATH
   if bash -c "cd $WT && $DEMO_CMD" >/tmp/mutdemo_with_$NAME.log 2>&1; then DEMO_WITH=pass; else DEMO_WITH=fail; fi
-  git stash -q -- $(git diff --name-only) 2>/dev/null
+  git apply -R $D/patch.diff
   if bash -c "cd $WT && $DEMO_CMD" >/tmp/mutdemo_without_$NAME.log 2>&1; then DEMO_WITHOUT=pass; else DEMO_WITHOUT=fail; fi
-  git stash pop -q
+  git apply $D/patch.diff
   rm -f $WT/$DEMO_PATH
 fi
 RES=""
